@@ -30,7 +30,7 @@ from ..monitors.seams import Seams
 from ..recipes import build as B
 
 LEVEL = "fault_enumeration"
-BUDGET_S = {"quick": 90, "thorough": 2400}
+BUDGET_S = {"quick": 420, "thorough": 2400}
 
 
 class Sabotage(BaseException):
